@@ -276,8 +276,23 @@ func fieldAccessesOf(db *lockDB, p *packages.Package, typeName string) []fieldAc
 
 // fieldSelOf returns the selector `recv.f` at the root of an lvalue (recv.f, recv.f[i], recv.f.x).
 func fieldSelOf(info *types.Info, e ast.Expr, rv *types.Var) *ast.SelectorExpr {
-	for {
+	for hops := 0; ; {
 		switch x := ast.Unparen(e).(type) {
+		case *ast.Ident:
+			// a local that is another name for a field of the receiver (lock := &s.mu)
+			if hops < 4 && info.Defs[x] == nil {
+				if a := model.AliasOf(info.Uses[x]); a != nil {
+					hops++
+					e = a
+					continue
+				}
+			}
+			return nil
+		case *ast.UnaryExpr:
+			if x.Op != token.AND {
+				return nil
+			}
+			e = x.X
 		case *ast.SelectorExpr:
 			if id, ok := ast.Unparen(x.X).(*ast.Ident); ok && objOf(info, id) == rv {
 				if s, ok := info.Selections[x]; ok && s.Kind() == types.FieldVal {
